@@ -128,14 +128,19 @@ namespace occa {
 
     if (loadedFormattedValue) {
       // Hex and binary only handle U, L, and LL
-      if (longs == 0) {
-        if (unsigned_) {
+      // As in C++, the literal gets the first of
+      //   int32, uint32, int64, uint64 that holds its value
+      const uint64_t value_ = p.to<uint64_t>();
+      const bool isWide = ((longs >= 1) ||
+                           (!negative && (value_ > 0xFFFFFFFFull)));
+      if (!isWide) {
+        if (unsigned_ || (!negative && (value_ > 0x7FFFFFFFull))) {
           p = p.to<uint32_t>();
         } else {
           p = p.to<int32_t>();
         }
-      } else if (longs >= 1) {
-        if (unsigned_) {
+      } else {
+        if (unsigned_ || (!negative && (value_ > 0x7FFFFFFFFFFFFFFFull))) {
           p = p.to<uint64_t>();
         } else {
           p = p.to<int64_t>();
